@@ -101,6 +101,11 @@ check("C06", "property test of algebraic laws of the subtype judgement over gene
       "Type expressions the checker objects to as such (unsupported syntax such as a set of an enum) are discarded and counted; container covariance is not asserted (the statement does not promise it).",
       "DESIGN.md §3 C06")
 
+check("C20", "model-based property test: generated import graphs run end-to-end against a reference model of the program's output",
+      "Projects of 1-8 modules with generated import graphs (DAGs, diamonds, 2- and longer cycles, self-imports), typed public bindings, top-level reads through annotated bindings and reads inside functions; `erg run main.er` (the working tree's CLI, fresh directory per case) must terminate within 90 s (a timeout is confirmed by a second run), exit 0 and print exactly the predicted multiset of lines (every module's start/end marker once, every value as defined); a falsified annotation of an imported binding must be rejected.",
+      "'Analyses each module once' is not observed (no counter hook); execution order of module bodies is not constrained, only multiplicity. Thread schedules are whatever the OS gives (C19 injects jitter).",
+      "DESIGN.md §3 C20")
+
 check("C23", "model-based property test: generated move/use scripts over mutable variables against a reference model of the moved set",
       "Straight-line scripts of up to 14 operations over mutable lists and naturals at module top level or inside a procedure body: rebinding, list and tuple construction, passing for a mutable-typed parameter (moves); RefMut / Ref / immutable parameters, print!, procedural method calls (uses that do not move). The checker must report >= 1 MoveError exactly when the model has a use after a move, every MoveError must lie on a line the model marks, and no other error kind may be reported.",
       "Function (non-procedure) scope is not generated (any operation on a mutable object is an effect there); generic parameters, closures capturing a mutable variable and control flow are not generated because the statement leaves their verdict open.",
